@@ -3,6 +3,7 @@ import UberjobModel.Props.C01
 #print axioms Uberjob.Engine.C01_transitive
 #print axioms Uberjob.Engine.C01_enqueued
 #print axioms Uberjob.Engine.C01_counter
+#print axioms Uberjob.Engine.C01_fine
 #print axioms Uberjob.Engine.physBuild_noreg
 #print axioms Uberjob.Engine.C01_plan
 #print axioms Uberjob.Engine.C01_plan_shape
